@@ -261,13 +261,13 @@ def split_stream(stream, nscripts):
     return per
 
 
-def run_scripts(scripts):
-    """-> (Outcome, per-script verdicts list | None)"""
+def run_scripts(scripts, validate=False):
+    """-> (Outcome, program source)"""
     from vlib import runner
 
     src = render_program(scripts)
     # hugr validation is C01's subject and not part of this oracle: skipped to keep programs cheap
-    out, lm = runner.run_source(src, n_qubits=N_QUBITS, validate=False)
+    out, lm = runner.run_source(src, n_qubits=N_QUBITS, validate=validate)
     if lm is not None:
         lm.dispose()
     return out, src
@@ -446,7 +446,7 @@ def worker(ctx):
     # function generic over the array length is a selene gap, not guppylang behaviour.)
     peek_ok = True
     for probe in (PEEK_PROBE, PEEK_PROBE_PQ):
-        out, src = run_scripts([probe])
+        out, src = run_scripts([probe], validate=True)  # accepted + valid HUGR is checked even if not executable
         if out.kind == "unsupported":
             peek_ok = False
             ctx.unsupported_case(f"peek ({probe['coll']}): {out.message[:120]}")
